@@ -1,0 +1,7 @@
+//go:build verif
+
+package nilness
+
+// VerifLattice exposes the nilness semilattice to runtime monitors, which
+// check its laws and run the dataflow solvers over it.
+type VerifLattice = lattice
